@@ -380,6 +380,9 @@ where
                         'outer: while block * BLOCK < total {
                             let end = ((block + 1) * BLOCK).min(total);
                             for i in block * BLOCK..end {
+                                if dev_div() > 1 && i % dev_div() != 0 {
+                                    continue;
+                                }
                                 if let Some(c) = decode(i) {
                                     let (out, known) = self.eval(&c);
                                     self.record2(&mut local, &c, &out, known, mark);
@@ -428,6 +431,7 @@ where
         S: Strategy<Value = C>,
         MK: Fn() -> S + Sync,
     {
+        let cases = (cases / dev_div()).max(1);
         let threads = (ctx.threads.max(1) as u64).min(cases.max(1));
         let per = cases.div_ceil(threads);
         let results: Vec<(Stats, Option<Failure>)> = std::thread::scope(|s| {
@@ -666,6 +670,13 @@ pub fn load_regress(prop: &str) -> Vec<(String, Value, String)> {
         out.push((driver, v["case"].clone(), p.display().to_string()));
     }
     out
+}
+
+/// Development only (coverage measurements with an instrumented, slow binary): VERIF_DEV_DIV=k
+/// runs 1/k of every driver's cases. No registered command sets it.
+pub fn dev_div() -> u64 {
+    static DIV: std::sync::OnceLock<u64> = std::sync::OnceLock::new();
+    *DIV.get_or_init(|| std::env::var("VERIF_DEV_DIV").ok().and_then(|s| s.parse().ok()).unwrap_or(1).max(1))
 }
 
 /// Monotone index mapping (keeps proptest shrinking effective).
